@@ -6,6 +6,7 @@ from .. import flow
 from ..fold import try_fold
 from ..util import stmts_with_env, calls_with_env, assignments_to, single_def, kwarg, param_names
 from . import shared
+from . import c19
 from .common import method, unconditional_in
 
 RG = 'vermouth/processors/repair_graph.py'
@@ -228,6 +229,9 @@ def run(ck):
     ck.ob('PROV-rebuild', mod.loc(fl[0]), ok, 'a rebuilt atom starts from the attributes shared by the residue and is then overwritten with the block atom\'s own attributes '
           '(name, element, ...; the block\'s resid excepted), so the block atom wins', key='PROV-rebuild|attributes')
     unrecognised_rules(ck, 'PROV-unrecognised')
+    # an unrecognised atom stays in the molecule (marked) unless its own residue carries a request: it is the molecule's atom that is asked,
+    # not the residue graph, whose attributes repair_residue has just overwritten with the (shared, possibly annotated) reference block's
+    c19.surplus_rule(ck, 'PROV-unrecognised-kept')
     shared.reference_residue_rules(ck, 'PROV-reference')
     shared.rebuilt_atom_identity(ck, 'PROV-rebuilt')
     shared.truthy_zero(ck, [RG])
